@@ -382,7 +382,7 @@ func (c *Ctx) CheckProperty(id string) (*Result, error) {
 		"seed":        c.Opt.Seed,
 		"level":       level,
 		"coverage":    cov,
-		"assumptions": cfg.Assumptions,
+		"assumptions": withAssumedNotes(cfg.Assumptions, notes),
 		"wall_s":      round3(time.Since(start).Seconds()),
 		"violations":  len(undis),
 	}
@@ -391,6 +391,20 @@ func (c *Ctx) CheckProperty(id string) (*Result, error) {
 		return nil, err
 	}
 	return res, nil
+}
+
+// withAssumedNotes: the assumptions of the property table plus every clause the contract files mark as assumed
+// (assume clauses, ensures marked "assumed"), as reported by the generator while encoding.
+func withAssumedNotes(base []string, notes []string) []string {
+	out := append([]string{}, base...)
+	seen := map[string]bool{}
+	for _, n := range notes {
+		if i := strings.Index(n, "ASSUMED, unchecked"); i >= 0 && !seen[n[i:]] {
+			seen[n[i:]] = true
+			out = append(out, n[i:])
+		}
+	}
+	return out
 }
 
 func backendKey(b string) string {
